@@ -175,3 +175,18 @@ Fixpoint round_shipped (c : cfg) (n : enode) : enode :=
         else ENode t (if c_sort c then sort_args kids' else kids')
       else ENode t kids'
   end.
+
+(* ---------------------------------------------------------------- ArgumentFormatter: the commas
+   ArgumentFormatter.visit_ArgumentNode (mformat.py, "arguments_count ... node.commas"):
+   nargs = positional + keyword arguments, ncommas = len(node.commas); [multiline] = node.is_multiline,
+   [is_fn] = the list belongs to a function / method call, [loud] = the last comma carries trivia.
+   RawPrinter prints a comma only after an argument (FullAstVisitor.visit_ArgumentNode). *)
+Definition comma_rule (no_single : bool) (nargs ncommas : nat) (multiline is_fn loud : bool) : nat :=
+  let trailing := negb (Nat.eqb ncommas 0) && Nat.eqb ncommas nargs in
+  if multiline then
+    let need := if Nat.eqb nargs 1 && is_fn then negb no_single else true in
+    if need && negb trailing then S ncommas
+    else if trailing && negb need then (ncommas - 1)%nat
+    else ncommas
+  else if trailing && negb loud then (ncommas - 1)%nat else ncommas.
+Definition printed_commas (nargs ncommas : nat) : nat := Nat.min nargs ncommas.
